@@ -78,11 +78,16 @@ def arg(typ, text):
     return name == "name" and int(value) == int(text) and type(value).__name__ == ("IntType" if typ == "int" else "UintType"), f"-a name:{typ}={text} -> {value!r}"
 
 
-def arg_string(form, text):
+def arg_string(form, text, envset=False):
     import os
     import celpy.__main__ as m
     os.environ.pop("name", None)
-    name, tdef, value = m.arg_type_value(form + text)
+    if envset:
+        os.environ["name"] = "from-the-environment"
+    try:
+        name, tdef, value = m.arg_type_value(form + text)
+    finally:
+        os.environ.pop("name", None)
     return name == "name" and type(value).__name__ == "StringType" and str(value) == text, f"-a {form}{text} binds {value!r}, expected the string {text!r}"
 
 
